@@ -12,7 +12,9 @@
          (C16_merge_adds_once_partial); containers and imported/unresolved symbols may be
          identified with a symbol already present -- that identification is where the code is wrong
      (5) merge renames only where needed                            -- REFUTED (C16_merge_renames_refuted:
-         symbols_to_skip is ignored by the container pass)
+         symbols_to_skip is ignored by the container pass); PROVED: no symbol outside the two tables
+         is renamed (C16_merge_renames_local_partial) and nothing at all is renamed when the tables
+         have no key in common (C16_merge_renames_only_clashes_partial)
      (6) a rejected operation changes nothing                       -- PROVED for every operation but
          merge (C16_rejected_unchanged_partial) and for merge rejected by check_for_clashes when no
          unresolved symbol of the receiving table has an intrinsic's name
@@ -20,7 +22,7 @@
          (C16_rejected_unchanged_refuted_specialise, C16_rejected_unchanged_refuted_partial_update). *)
 From Coq Require Import List Arith Bool String NArith.
 Import ListNotations.
-From PV Require Import C16.GenTables C16.Model C16.Names C16.Inv C16.MergeProofs C16.StateInv C16.Proofs C16.Witness.
+From PV Require Import C16.GenTables C16.Model C16.Names C16.Inv C16.MergeProofs C16.RenameProofs C16.StateInv C16.Proofs C16.Witness.
 Open Scope string_scope.
 Open Scope list_scope.
 
@@ -171,6 +173,36 @@ Theorem C16_merge_renames_refuted :
                       || mem_sid (snd e) skip) (t_syms Ot) = true.
 Proof. exact merge_renames_refuted_. Qed.
 Print Assumptions C16_merge_renames_refuted.
+
+(* proved part of (5): with no key in common between the two tables, merge -- whatever its outcome --
+   leaves every name as it was; and in any case only symbols of the two tables can be renamed.
+   (Missing for the full statement restricted to non-skipped symbols: a per-symbol version, "s is
+   renamed only if ITS key is in both tables".) *)
+Theorem C16_merge_renames_only_clashes_partial : forall h T anc Ot skip m ph oe,
+    TOK h T -> TOK h Ot -> (forall s, In s (sids T) -> ~ In s (sids Ot)) ->
+    (forall s, In s (sids Ot) -> is_import (hget h s) = true -> is_container (hget h s) = false) ->
+    (forall k, In k (keys T) -> ~ In k (keys Ot)) ->
+    merge h T anc Ot skip = (m, ph, oe) ->
+    forall s, s_name (hget (m_heap m) s) = s_name (hget h s).
+Proof. exact merge_no_clash_no_rename_. Qed.
+Print Assumptions C16_merge_renames_only_clashes_partial.
+
+Theorem C16_merge_renames_local_partial : forall h T anc Ot skip m ph oe,
+    TOK h T -> TOK h Ot -> (forall s, In s (sids T) -> ~ In s (sids Ot)) ->
+    merge h T anc Ot skip = (m, ph, oe) ->
+    forall s, ~ In s (sids T) -> ~ In s (sids Ot) -> s_name (hget (m_heap m) s) = s_name (hget h s).
+Proof. exact merge_renames_local_. Qed.
+Print Assumptions C16_merge_renames_local_partial.
+
+Example C16_merge_no_clash_nonvacuous :
+  exists st T Ot m,
+    reachable st /\ get_table st (TSlot 0) = Some T /\ nth_error (st_det st) 0 = Some Ot /\
+    (forall s, In s (sids Ot) -> is_import (hget (st_heap st) s) = true -> is_container (hget (st_heap st) s) = false) /\
+    (forall k, In k (keys T) -> ~ In k (keys Ot)) /\
+    merge (st_heap st) T (ancestors st (TSlot 0)) Ot [] = (m, MDone, None) /\
+    map (fun s => s_name (hget (m_heap m) s)) (sids (m_self m)) = ["a"; "B"; "m"; "x"; "c"].
+Proof. exact merge_no_clash_nonvacuous. Qed.
+Print Assumptions C16_merge_no_clash_nonvacuous.
 
 (* (6) full statement, FALSE of the code:  forall st o st' e, step st o = (st', RErr e) -> st' = st.
    Proved for every operation except merge: *)
